@@ -101,6 +101,13 @@ pub struct RunOptions {
     pub expected_second: Option<Arc<Vec<RefStep>>>,
 }
 
+/// Reset the deterministic hash-seed counters of the CALLING thread (maps built outside the simulated
+/// execution — reference output, histories — get their hasher seeds from it).
+pub fn reset_hash_seeds(seed: u64) {
+    ahash::random_state::verif_reset_seed_counter(seed as usize | 1);
+    foldhash::verif_reset_seed_counter(seed | 1);
+}
+
 pub fn grevm_config(s: &Scenario) -> GrevmConfig {
     GrevmConfig {
         concurrency_level: s.grevm.concurrency,
